@@ -962,7 +962,7 @@ def rule_copies(eng):
         for n in f.nodes():
             if n.get("k") == "un" and n.get("op") == "*":
                 pr = prov(f, n["e"])
-                if pr.kind == "vec" and "payloadData" in (pr.base or ""):
+                if pr.kind == "vec" and fb.mentions_payload_buffer(pr.base or ""):
                     # *(payloadData.data() + off): guarded by payloadData.size() > off
                     fs = eng.mf(f).at(n)
                     sym = getattr(pr, "sym", None)
@@ -1119,12 +1119,12 @@ def justify_copy(eng, f, c, dst, src, ln, managed=False):
         if len(ld) == 1:
             e2 = strip_all_casts(ld[0])
             pr2 = prov(f, ld[0])
-            if pr2.kind == "vec" and "payloadData" in (pr2.base or "") and e2.get("k") == "bin":
+            if pr2.kind == "vec" and fb.mentions_payload_buffer(pr2.base or "") and e2.get("k") == "bin":
                 offv = strip_all_casts(e2["r"])
                 offdefs = local_defs(f).get(offv.get("decl"), []) if offv.get("k") == "ref" else [offv]
                 offc = facts.xcanon(f, offdefs[0]) if len(offdefs) == 1 else None
                 for a in fs:
-                    if a[0] == "cmp" and "payloadData" in a[1] and "size()" in a[1] and a[2] in (">=", ">"):
+                    if a[0] == "cmp" and fb.mentions_payload_buffer(a[1]) and "size()" in a[1] and a[2] in (">=", ">"):
                         # size >= off + L   /  size > off + L - 1
                         form_ok = False
                         r = strip_all_casts(a[5])
